@@ -150,3 +150,8 @@ def run(ctx, chk, tier):
     swap_rule(ctx, chk)
     table_rules(ctx, chk)
     equivariance(ctx, chk, tier)
+    # EER equivariance under reversal rests on the EER rules (zero clause, crossing function) and affine equivariance of the
+    # sentinels on the float typing of the threshold array: re-decide those obligations here.
+    from . import c06, c03
+    c06.run(ctx, chk, tier)
+    c03.sentinel_dtype(ctx, chk)
